@@ -9,6 +9,7 @@ import (
 	"sync"
 	"syscall"
 	"time"
+	"unsafe"
 
 	"verifsim/simrt"
 )
@@ -16,8 +17,11 @@ import (
 // Addr is a simulated address.
 type Addr string
 
+//go:norace
 func (a Addr) Network() string { return "sim" }
-func (a Addr) String() string  { return string(a) }
+
+//go:norace
+func (a Addr) String() string { return string(a) }
 
 // Conn is the broker-side endpoint of a simulated connection.
 type Conn struct {
@@ -58,16 +62,20 @@ type Seg struct {
 }
 
 // NewConn creates a connection.
+//
+//go:norace
 func NewConn(s *simrt.Sched, id int, name string) *Conn {
 	return &Conn{S: s, ID: id, Name: name}
 }
 
+//go:norace
 func (c *Conn) wakeReadersLocked() []*simrt.Task {
 	w := c.rwaiters
 	c.rwaiters = nil
 	return w
 }
 
+//go:norace
 func (c *Conn) wakeWritersLocked() []*simrt.Task {
 	w := c.wwaiters
 	c.wwaiters = nil
@@ -76,14 +84,23 @@ func (c *Conn) wakeWritersLocked() []*simrt.Task {
 
 type timeoutErr struct{}
 
-func (timeoutErr) Error() string   { return "i/o timeout" }
-func (timeoutErr) Timeout() bool   { return true }
+//go:norace
+func (timeoutErr) Error() string { return "i/o timeout" }
+
+//go:norace
+func (timeoutErr) Timeout() bool { return true }
+
+//go:norace
 func (timeoutErr) Temporary() bool { return true }
+
+//go:norace
 func (timeoutErr) Is(err error) bool {
 	return err == os.ErrDeadlineExceeded
 }
 
 // Read implements net.Conn.
+//
+//go:norace
 func (c *Conn) Read(p []byte) (int, error) {
 	if c.S == nil || c.S.Poisoned() {
 		return 0, net.ErrClosed
@@ -122,6 +139,8 @@ func (c *Conn) Read(p []byte) (int, error) {
 }
 
 // Write implements net.Conn.
+//
+//go:norace
 func (c *Conn) Write(p []byte) (int, error) {
 	if c.S == nil || c.S.Poisoned() {
 		return 0, net.ErrClosed
@@ -157,6 +176,8 @@ func (c *Conn) Write(p []byte) (int, error) {
 }
 
 // Close implements net.Conn (broker side close).
+//
+//go:norace
 func (c *Conn) Close() error {
 	c.mu.Lock()
 	if c.closed {
@@ -182,11 +203,18 @@ func (c *Conn) Close() error {
 	return nil
 }
 
-func (c *Conn) LocalAddr() net.Addr           { return Addr("broker") }
-func (c *Conn) RemoteAddr() net.Addr          { return Addr(c.Name) }
+//go:norace
+func (c *Conn) LocalAddr() net.Addr { return Addr("broker") }
+
+//go:norace
+func (c *Conn) RemoteAddr() net.Addr { return Addr(c.Name) }
+
+//go:norace
 func (c *Conn) SetDeadline(t time.Time) error { return c.SetReadDeadline(t) }
 
 // SetReadDeadline implements net.Conn on the simulated clock.
+//
+//go:norace
 func (c *Conn) SetReadDeadline(t time.Time) error {
 	c.mu.Lock()
 	c.rdl = t
@@ -214,11 +242,14 @@ func (c *Conn) SetReadDeadline(t time.Time) error {
 	return nil
 }
 
+//go:norace
 func (c *Conn) SetWriteDeadline(t time.Time) error { return nil }
 
 // ---- simulator side ----
 
 // Deliver hands bytes from the peer to the broker side.
+//
+//go:norace
 func (c *Conn) Deliver(b []byte) {
 	c.mu.Lock()
 	c.in = append(c.in, b...)
@@ -228,6 +259,8 @@ func (c *Conn) Deliver(b []byte) {
 }
 
 // PeerClose is an orderly close by the peer (FIN): pending input is still readable, then EOF.
+//
+//go:norace
 func (c *Conn) PeerClose() {
 	c.mu.Lock()
 	c.eof = true
@@ -237,6 +270,8 @@ func (c *Conn) PeerClose() {
 }
 
 // PeerReset is an abortive close by the peer (RST): unread input is lost, reads and writes fail.
+//
+//go:norace
 func (c *Conn) PeerReset() {
 	c.mu.Lock()
 	c.rst = true
@@ -247,6 +282,8 @@ func (c *Conn) PeerReset() {
 }
 
 // Take returns and removes what the broker has written since the last call (unless stalled).
+//
+//go:norace
 func (c *Conn) Take() []byte {
 	c.mu.Lock()
 	if c.stalled || len(c.out) == 0 {
@@ -262,6 +299,8 @@ func (c *Conn) Take() []byte {
 }
 
 // TakeSegs returns and removes the broker's writes since the last call (unless stalled).
+//
+//go:norace
 func (c *Conn) TakeSegs() []Seg {
 	c.mu.Lock()
 	if c.stalled || len(c.segs) == 0 {
@@ -278,6 +317,8 @@ func (c *Conn) TakeSegs() []Seg {
 }
 
 // SetStall makes the peer stop reading; with a bounded buffer the broker's Write then blocks.
+//
+//go:norace
 func (c *Conn) SetStall(on bool, capBytes int) {
 	c.mu.Lock()
 	c.stalled = on
@@ -286,6 +327,8 @@ func (c *Conn) SetStall(on bool, capBytes int) {
 }
 
 // Closed reports whether the broker side has closed the connection.
+//
+//go:norace
 func (c *Conn) Closed() bool {
 	c.mu.Lock()
 	defer c.mu.Unlock()
@@ -293,6 +336,8 @@ func (c *Conn) Closed() bool {
 }
 
 // PendingIn returns the number of delivered bytes the broker has not read yet.
+//
+//go:norace
 func (c *Conn) PendingIn() int {
 	c.mu.Lock()
 	defer c.mu.Unlock()
@@ -303,6 +348,7 @@ func (c *Conn) PendingIn() int {
 type Listener struct {
 	S       *simrt.Sched
 	Name    string
+	HB      byte // race detector: released whenever the broker asks for a connection ("the server is serving")
 	mu      sync.Mutex
 	q       []net.Conn
 	closed  bool
@@ -310,13 +356,18 @@ type Listener struct {
 }
 
 // NewListener creates a listener.
+//
+//go:norace
 func NewListener(s *simrt.Sched, name string) *Listener { return &Listener{S: s, Name: name} }
 
 // Accept implements net.Listener.
+//
+//go:norace
 func (l *Listener) Accept() (net.Conn, error) {
 	if l.S.Poisoned() {
 		return nil, net.ErrClosed
 	}
+	simrt.RaceRelease(unsafe.Pointer(&l.HB))
 	simrt.Yield()
 	t := l.S.Cur()
 	for {
@@ -338,6 +389,8 @@ func (l *Listener) Accept() (net.Conn, error) {
 }
 
 // Close implements net.Listener.
+//
+//go:norace
 func (l *Listener) Close() error {
 	l.mu.Lock()
 	l.closed = true
@@ -355,9 +408,13 @@ func (l *Listener) Close() error {
 }
 
 // Addr implements net.Listener.
+//
+//go:norace
 func (l *Listener) Addr() net.Addr { return Addr(l.Name) }
 
 // IsClosed reports whether Close was called.
+//
+//go:norace
 func (l *Listener) IsClosed() bool {
 	l.mu.Lock()
 	defer l.mu.Unlock()
@@ -365,6 +422,8 @@ func (l *Listener) IsClosed() bool {
 }
 
 // Push makes a new connection available to Accept. It returns false if the listener is closed.
+//
+//go:norace
 func (l *Listener) Push(c net.Conn) bool {
 	l.mu.Lock()
 	if l.closed {
